@@ -5,6 +5,7 @@ package main
 import (
 	"fmt"
 	"os"
+	"strings"
 
 	"github.com/PapaCharlie/go-restli/v2/restlicodec"
 
@@ -69,6 +70,26 @@ func main() {
 				os.Exit(1)
 			}
 			fmt.Println("no violation")
+		case "C13":
+			var rp defReplay
+			a.LoadReplay(&rp)
+			w := u.ByName[rp.Wrapper]
+			paths := defaultedPaths(w, nil, 2)
+			supplied := map[int]bool{}
+			for i, p := range paths {
+				for _, s := range rp.Supply {
+					if strings.Join(p, ".") == s {
+						supplied[i] = true
+					}
+				}
+			}
+			kind, field, detail := checkDefaultCase(w, paths, supplied, rp.Reader)
+			fmt.Printf("record %s supplying %v reader %s\n", rp.Wrapper, rp.Supply, rp.Reader)
+			if kind != "" {
+				fmt.Println("FAIL:", kind, field, detail)
+				os.Exit(1)
+			}
+			fmt.Println("no violation")
 		case "C10":
 			var rp eqReplay
 			a.LoadReplay(&rp)
@@ -107,6 +128,8 @@ func main() {
 		partC03(a, rep, univName, u)
 	case "C10":
 		partC10(a, rep, univName, u)
+	case "C13":
+		partC13(a, rep, univName, u)
 	default:
 		report.Internal("unknown part %q", a.Part)
 	}
